@@ -29,7 +29,9 @@ fn unit_strategy() -> impl Strategy<Value = Vec<u16>> {
     prop_oneof![
         6 => proptest::char::range('a', 'z').prop_map(|c| vec![c as u16]),
         2 => Just(vec![b' ' as u16]),
-        3 => proptest::char::range('\u{A0}', '\u{FF}').prop_map(|c| vec![c as u16]),
+        // the whole upper half of Latin-1, C1 controls included: an 8-bit segment widens each byte
+        // to U+00xx (it is not windows-1252 text)
+        3 => proptest::char::range('\u{80}', '\u{FF}').prop_map(|c| vec![c as u16]),
         3 => prop_oneof![Just('Ж'), Just('中'), Just('\u{FFFD}'), Just('\u{100}'), Just('\u{2028}')].prop_map(|c| vec![c as u16]),
         2 => prop_oneof![Just('😀'), Just('𝄞'), Just('\u{10000}'), Just('\u{10FFFF}')].prop_map(|c| {
             let mut b = [0u16; 2];
